@@ -288,3 +288,69 @@ def transposed_response(response):
     except ValueError:
         return None
     return out
+
+
+# --------------------------------------------------------------- slicing of real 3-D payloads
+
+
+def table_slices(response):
+    """[(k, 2-D response)] : for every valid element k of the table (first) dimension of a 3-D
+    payload, the 2-D payload obtained by slicing every data array at that element (for an MR
+    table: at item k's 'selected' entry). None when the payload is not a plain 3-D cube."""
+    import numpy as np
+    from cr.cube.cube import Cube
+
+    env_ = response if "result" in response else response.get("value")
+    if not isinstance(env_, dict) or "result" not in env_:
+        return None
+    r = env_["result"]
+    if "margins" in r or any(m in (r.get("measures") or {}) for m in (
+            "overlap", "valid_overlap", "covariance")):
+        return None
+    cube = Cube(json.loads(json.dumps(response)))
+    try:
+        if cube._numeric_array_dimension or len(cube.dimension_types) != 3:
+            return None
+        all_dims = list(cube._all_dimensions)
+    except Exception:
+        return None
+    raw = r["dimensions"]
+    if len(all_dims) != len(raw):
+        return None
+    t0 = all_dims[0].dimension_type.name
+    shape = [len(d.all_elements) for d in all_dims]
+    n = int(np.prod(shape))
+    if t0 == "MR_SUBVAR":
+        if len(all_dims) < 2 or all_dims[1].dimension_type.name != "MR_CAT":
+            return None
+        sel = [i for i, e in enumerate(raw[1]["type"]["categories"]) if e.get("selected")]
+        if len(sel) != 1:
+            return None
+        drop = 2
+    elif t0 in ("CAT", "CAT_DATE", "TEXT", "DATETIME", "BINNED_NUMERIC", "LOGICAL"):
+        sel, drop = None, 1
+    else:
+        return None  # CA tables: the CA categories would change their dimension type
+    out = []
+    for k, raw_idx in enumerate(all_dims[0].valid_elements.element_idxs):
+        idx = (int(raw_idx),) if sel is None else (int(raw_idx), sel[0])
+
+        def sdata(data):
+            if not isinstance(data, list) or len(data) != n:
+                raise ValueError("unexpected data length")
+            arr = np.empty(n, dtype=object)
+            for i, x in enumerate(data):
+                arr[i] = x
+            return arr.reshape(shape)[idx].reshape(-1).tolist()
+
+        resp2 = json.loads(json.dumps(response))
+        r2 = (resp2 if "result" in resp2 else resp2["value"])["result"]
+        try:
+            r2["dimensions"] = json.loads(json.dumps(raw[drop:]))
+            r2["counts"] = sdata(r["counts"])
+            for name, m in (r.get("measures") or {}).items():
+                r2["measures"][name]["data"] = sdata(m["data"])
+        except ValueError:
+            return None
+        out.append((k, resp2))
+    return out
